@@ -272,10 +272,13 @@ func appendAnalyticFunctionToListIfNotExist(list1 []parser.AnalyticFunction, lis
 		return m
 	}
 
+	// list2 is walked in its own order (not through a map): the functions are evaluated in the order of this list, and
+	// a function nested in another one has to come before it
 	m1 := createMap(list1)
-	m2 := createMap(list2)
-	for k, v := range m2 {
+	for _, v := range list2 {
+		k := FormatFieldIdentifier(v)
 		if _, ok := m1[k]; !ok {
+			m1[k] = v
 			list1 = append(list1, v)
 		}
 	}
